@@ -290,7 +290,7 @@ func c02Laws(args []string) error {
 			} else {
 				yy := rho
 				if taper != 0 {
-					yy += p.Z * math.Atan(taper)
+					yy += p.Z * math.Tan(taper) // the radius of a cone of half angle taper changes with tan(taper)
 				}
 				reg("Screw3D=max(thread(sawtooth,rho),|z|-l/2)").cmp(scr.Evaluate(p),
 					math.Max(a2.Evaluate(v2.Vec{X: (fr - 0.5) * pitch, Y: yy}), math.Abs(p.Z)-slen/2), tag)
@@ -446,7 +446,9 @@ func (s *spy2) Evaluate(p v2.Vec) float64 {
 	s.calls++
 	return math.Max(math.Abs(p.X)-1, math.Abs(p.Y)-2) // an L-infinity box: f(+0,y) = f(-0,y)
 }
-func (s *spy2) BoundingBox() sdf.Box2 { return sdf.Box2{Min: v2.Vec{X: -1, Y: -2}, Max: v2.Vec{X: 1, Y: 2}} }
+func (s *spy2) BoundingBox() sdf.Box2 {
+	return sdf.Box2{Min: v2.Vec{X: -1, Y: -2}, Max: v2.Vec{X: 1, Y: 2}}
+}
 
 type cacheVec struct {
 	H []int `json:"h"` // query history, point ids 1..3
